@@ -8,7 +8,7 @@ func init() {
 		NotDecided: []string{"that the SIMD kernels compute the masks their tables imply at every block offset and across carries", "\\u/surrogate distance logic inside the machine code", "strconv's own number grammar (argued: over [0-9.+-eE] with the shape checks it equals the JSON number language)"},
 		Assumptions: []string{"go/types resolves the same callees the compiler does", "asm DATA bytes never mentioned are zero (assembler semantics)"},
 		Exhaustive: true,
-		Quick:      []string{"C01.aut", "C01.tab.follow", "C01.tab.number", "C01.tab.markup", "C01.num.shape", "C01.num.loop"},
+		Quick:      []string{"C01.aut", "C01.tab.follow", "C01.tab.number", "C01.tab.markup", "C01.num.shape", "C01.num.loop", "C01.err", "C01.end", "C15.reset", "C02.cursor"},
 	})
 	regProp(&PropInfo{ID: "C03",
 		Decides:    "The type cascade and overflow-flag discipline of parseNumber on every control-flow path: which strconv conversion may produce which tag and value word, integer attempts first, ErrRange recorded after every failed integer attempt, flag set only for integer notation, length gate admits all int64/uint64 literals; addNumber writes (tag,value) exactly when a tag was produced.",
@@ -37,5 +37,33 @@ func init() {
 		Assumptions: []string{},
 		Exhaustive: true,
 		Quick:      []string{"C17.pair", "C17.masks", "C14.writers", "C02.map"},
+	})
+	regProp(&PropInfo{ID: "C05",
+		Decides:    "Channel hand-off cannot deadlock or leak for any input size: exactly one terminator sent last on every stage-1 path; it is consumed exactly once on every failure path of both branches (blocking drain only while it is outstanding); goroutine joined before return; worst-case number of sends on the synchronous path fits the channel; index-buffer slack covers the unchecked tail call; tail processed from a padded copy; NOP-skipping loops make progress.",
+		NotDecided: []string{"memory safety inside the SIMD kernels beyond the slack arithmetic", "time bounds other than loop progress", "bounds of every tape index on the read API (C19.bounds covers the corrupt-tape side)"},
+		Assumptions: []string{"every index entry refers to a distinct input byte (stage 1 emits at most one index per byte)"},
+		Exhaustive: true,
+		Quick:      []string{"C05.term", "C05.drain", "C05.const", "C05.progress", "C01.err", "C02.cursor"},
+	})
+	regProp(&PropInfo{ID: "C07",
+		Decides:    "Structural reasons no interleaving can lose or overwrite an index buffer and both stages terminate on every error path: ring arithmetic (cap+2 <= slots, slot = counter % slots), exactly-once terminator, drain discipline of the consumer goroutine, join before return.",
+		NotDecided: []string{"that tape content is identical under all interleavings (follows from the above plus data-race freedom of the asm, which is not analysed)"},
+		Assumptions: []string{"Go channel semantics"},
+		Exhaustive: true,
+		Quick:      []string{"C05.term", "C05.drain", "C05.const", "C02.cursor"},
+	})
+	regProp(&PropInfo{ID: "C15",
+		Decides:    "Definite (re)initialisation of reused parser state on every path before either stage starts: Message, ndjson flag, buffersOffset, channel, initialize() resets of Tape/Strings/scope stack/current index buffer, copy-strings default before options; index channel drained to the terminator on every failure path.",
+		NotDecided: []string{"equality of outcomes (behavioural)", "Serializer/Deserialize reuse until C15.ser is built"},
+		Assumptions: []string{},
+		Exhaustive: true,
+		Quick:      []string{"C15.reset", "C05.drain", "C05.term"},
+	})
+	regProp(&PropInfo{ID: "C08",
+		Decides:    "Where newline becomes a token and how roots are sequenced: ParseND passes ndjson=true and Parse false; the flag is (re)assigned on every path; in the extracted automaton a root must be followed by LF, blank lines are skipped, the old root is closed and a new one opened before the next '{'/'['; inside containers LF has no row.",
+		NotDecided: []string{"agreement of the SIMD newline mask with byte-wise splitting (C08.gate, asm, not yet built)", "the empty-input corner"},
+		Assumptions: []string{},
+		Exhaustive: true,
+		Quick:      []string{"C08.rows", "C01.err", "C15.reset", "C01.aut"},
 	})
 }
